@@ -5,6 +5,7 @@ _COMMON = [
 SPEC = dict(
     harness=['h_oom.c'],
     level='fault_enumeration',
+    memcheck_cases={'thorough': 240},
     rule='for each seeded history H of 20-60 operations on one vector, fixed buffer, string or queue (op mixes of C04-C06 incl. new/die, setz, drop, '
          'exit, formatted append with lengths straddling the spare capacity): H is run fault-free to count its A(H) allocation requests (size>0 calls '
          'through the a_alloc pointer), then re-run FROM SCRATCH for every k in 1..A(H) twice: request k alone refused (the failed operation is '
